@@ -245,79 +245,9 @@ fn c09_snapshot_roundtrip_numeric() {
     kani::cover!(v0 + v1 == 0 && v0 != 0, "sum cancels");
 }
 
-use snel_db::engine::core::read::cache::DecompressedBlock;
-use snel_db::engine::core::ColumnValues;
-use std::collections::HashMap;
-use std::sync::Arc;
-
-/// one-row typed column map as the segment reader hands it to the aggregate sink
-fn one_row_columns(unsigned: bool, bits: u64) -> HashMap<String, ColumnValues> {
-    let mut bytes = Vec::with_capacity(8);
-    bytes.extend_from_slice(&bits.to_le_bytes());
-    let block = Arc::new(DecompressedBlock::from_bytes(bytes));
-    let col = if unsigned {
-        ColumnValues::new_typed_u64(block, 0, 1, None)
-    } else {
-        ColumnValues::new_typed_i64(block, 0, 1, None)
-    };
-    let mut m = HashMap::new();
-    m.insert("x".to_string(), col);
-    m
-}
-
-fn tiers_body(unsigned: bool) {
-    let v: i64 = kani::any();
-    kani::assume(v >= 0 && v < (1i64 << 60));
-    // memory tier: the event holds Int64(v) for both i64 and u64 fields
-    let ev = event_with(ScalarValue::Int64(v));
-    let mut mem = AggregatorImpl::from_spec(&AggregateOpSpec::Total { field: "x".to_string() });
-    mem.update_from_event(&ev);
-    // segment tier: typed column of the field's physical type
-    let cols = one_row_columns(unsigned, v as u64);
-    let mut seg = AggregatorImpl::from_spec(&AggregateOpSpec::Total { field: "x".to_string() });
-    seg.update(0, &cols);
-    assert!(mem.finalize() == AggOutput::Sum(v), "memory tier TOTAL");
-    assert!(seg.finalize() == AggOutput::Sum(v), "segment tier TOTAL equals the memory tier");
-    kani::cover!(v > 0, "non-zero value");
-    std::mem::forget(ev);
-    std::mem::forget(cols);
-    std::mem::forget(mem);
-    std::mem::forget(seg);
-}
-
-//@ id: A-5i
-//@ tier: thorough
-//@ cap: 2400
-//@ optional: true
-//@ desc: TOTAL over an i64 field gives the same partial state on the segment tier (AggregatorImpl::update over a typed i64 column) and the memory tier (update_from_event)
-//@ functions: AggregatorImpl::update, Sum::update, ColumnValues::get_i64_at, AggregatorImpl::update_from_event
-//@ bounds: one row, value in [0, 2^60); one HashMap<String, ColumnValues> with one entry
-//@ assumes: none
-//@ stubs: std::hash::RandomState::new -> fixed keys
-//@ mem: 30
-#[kani::proof]
-#[kani::stub(std::hash::RandomState::new, crate::util::fixed_random_state)]
-#[kani::unwind(10)]
-fn c09_total_tiers_agree_i64() {
-    tiers_body(false);
-}
-
-//@ id: A-5u
-//@ tier: thorough
-//@ cap: 2400
-//@ optional: true
-//@ desc: TOTAL over a u64 field gives the same partial state on the segment tier (typed u64 column) and the memory tier (was finding F-C09-a, fixed)
-//@ functions: AggregatorImpl::update, Sum::update, ColumnValues::get_i64_at
-//@ bounds: as A-5i with a typed u64 column
-//@ assumes: none
-//@ stubs: std::hash::RandomState::new -> fixed keys
-//@ mem: 30
-#[kani::proof]
-#[kani::stub(std::hash::RandomState::new, crate::util::fixed_random_state)]
-#[kani::unwind(10)]
-fn c09_total_tiers_agree_u64() {
-    tiers_body(true);
-}
+// Tier agreement of the segment-tier `update(row, columns)` path was attempted here with a
+// one-entry HashMap<String, ColumnValues>; under Kani it did not finish in 2400 s / 14 GB
+// (String-keyed SipHash), so that obligation is decided by Engine B (C09 B-1*, B-2*) instead.
 
 #[cfg(test)]
 mod replay {
